@@ -14,6 +14,7 @@
 //
 // Operations (model names on the left are turned into concrete objects here; concrete ids are reported back in "r"):
 //   ["new",type,label] ["change",type] ["topup",n] ["topup1",type,internal,n] ["reload"]   keypool (C62)
+//   ["importh",k,internal] ["reserve",type,internal,"keep"|"return"|"drop"] ["lock"] ["unlock",pass]   keypool with a hardened range / reservations (C62)
 //   ["label",k,label,purpose] ["dellabel",k] ["lockcoin",k,persist] ["unlockcoin",k] ["unlockall"]
 //   ["addtx",k,state] ["removetx",[k..]] ["abandon",k] ["setflag",name] ["unsetflag",name] ["bestblock",h]
 //   ["import",k,ranged,active,internal,label]                                         records (C43)
@@ -301,6 +302,42 @@ struct Sess : public TestChain100Setup {
                 for (const CScript& spk : res->get().GetScriptPubKeys()) { CTxDestination d; if (ExtractDestination(spk, d)) addrs.push_back(EncodeDestination(d)); }
             }
             return Obj({{"ok", true}, {"id", id.GetHex()}, {"addrs", addrs}});
+        }
+        if (op == "importh") {
+            // an active bech32 descriptor whose range step is HARDENED: wpkh(xprv/0/*h). Without the private key (locked wallet) it cannot
+            // derive beyond its cache, so requests fail with "Keypool ran out" once the pre-derived keys are used up.
+            const int k = a[1].getInt<int>(); const bool internal = a[2].get_bool();
+            CExtKey ext; const CKey seed = K(400 + k);
+            ext.SetSeed(MakeByteSpan(seed));
+            FlatSigningProvider keys; std::string error;
+            auto parsed = Parse("wpkh(" + EncodeExtKey(ext) + "/0/*h)", keys, error, /*require_checksum=*/false);
+            if (parsed.empty()) throw std::runtime_error("hardened descriptor does not parse: " + error);
+            WalletDescriptor wd(std::move(parsed.at(0)), /*creation_time=*/1, 0, w->m_keypool_size, 0);
+            LOCK(w->cs_wallet);
+            auto res = w->AddWalletDescriptor(wd, keys, "", internal);
+            if (!res) return Obj({{"ok", false}, {"err", util::ErrorString(res).original}});
+            const uint256 id = res->get().GetID();
+            w->AddActiveScriptPubKeyMan(id, OutputType::BECH32, internal);
+            return Obj({{"ok", true}, {"id", id.GetHex()}});
+        }
+        if (op == "reserve") {
+            // the change reservation of CreateTransaction: ReserveDestination::GetReservedDestination(internal), then KeepDestination ("keep"),
+            // ReturnDestination ("return") or nothing but the destructor ("drop")
+            const OutputType t = *ParseOutputType(a[1].get_str()); const bool internal = a[2].get_bool(); const std::string how = a[3].get_str();
+            UniValue r;
+            {
+                LOCK(w->cs_wallet);
+                ReserveDestination rd(w.get(), t);
+                auto res = rd.GetReservedDestination(internal);
+                if (!res) r = Obj({{"ok", false}, {"err", util::ErrorString(res).original}});
+                else r = Obj({{"ok", true}, {"addr", EncodeDestination(*res)}});
+                if (res && how == "keep") rd.KeepDestination();
+                if (how == "return") rd.ReturnDestination();
+            }
+            LOCK(w->cs_wallet);
+            auto* d = dynamic_cast<DescriptorScriptPubKeyMan*>(w->GetScriptPubKeyMan(t, internal));
+            if (d) { LOCK(d->cs_desc_man); r.pushKV("next", d->GetWalletDescriptor().next_index); r.pushKV("id", d->GetID().GetHex()); }
+            return r;
         }
         if (op == "encrypt") { return Obj({{"ok", w->EncryptWallet(SecureString(a[1].get_str()))}}); }
         if (op == "lock") { return Obj({{"ok", w->Lock()}}); }
